@@ -3,6 +3,7 @@ use serde_json::Value;
 
 pub mod c01;
 pub mod c04b;
+pub mod c07;
 pub mod c08;
 pub mod c09;
 pub mod c10;
@@ -22,7 +23,7 @@ pub struct PropSpec {
 }
 
 pub fn all() -> Vec<PropSpec> {
-    vec![c01::spec(), oscp::spec_c02(), oscp::spec_c03(), oscp::spec_c04(), oscp::spec_c05(), oscp::spec_c06(), c08::spec(), c09::spec(), c10::spec(), c11::spec(), c13::spec(), c16::spec(), oscp::spec_c17(), oscp::spec_c18()]
+    vec![c01::spec(), oscp::spec_c02(), oscp::spec_c03(), oscp::spec_c04(), oscp::spec_c05(), oscp::spec_c06(), c07::spec(), c08::spec(), c09::spec(), c10::spec(), c11::spec(), c13::spec(), c16::spec(), oscp::spec_c17(), oscp::spec_c18()]
 }
 
 pub fn get(id: &str) -> Option<PropSpec> {
